@@ -68,8 +68,10 @@ def c06(tier):
     names = os.path.join(wd, 'names.json')
     vlib.harness(['builtins', 'names', 'out=' + names])
     nprocs = len(json.load(open(names))['names'])
-    cfgs = ['Gen_Builtins01.cfg', 'Gen_Builtins2s.cfg', 'Gen_Builtins35s.cfg'] if q else \
-           ['Gen_Builtins01.cfg', 'Gen_Builtins2.cfg', 'Gen_Builtins35.cfg']
+    # *r.cfg: procedures taking three or more arguments, every argument tuple over a reduced palette in which
+    # the same object can occupy several positions
+    cfgs = ['Gen_Builtins01.cfg', 'Gen_Builtins2s.cfg', 'Gen_Builtins35s.cfg', 'Gen_Builtins3r.cfg'] if q else \
+           ['Gen_Builtins01.cfg', 'Gen_Builtins2.cfg', 'Gen_Builtins35.cfg', 'Gen_Builtins35r.cfg']
     states = 0
     ncalls = 0
     by_class = {}
@@ -131,6 +133,34 @@ def c06(tier):
             raise vlib.ToolError('executed %d of %d calls of %s' % (n, cnt[0], cfg))
         ncalls += n
         tiers.append({'cfg': cfg, 'calls': n, 'crashes_or_hangs': len(crashes)})
+    # multi-step programs: sessions of the continuation / failure / language generators run through the evaluator;
+    # Trace_CEK rejects every panic, abort, time-out or unrenderable error among their observations
+    import cek
+    sess_runs = 0
+    for gi, (kind, cnt, extra) in enumerate([('cont', 80 if q else 3000, []), ('fail', 25 if q else 800, ['kmax=20']),
+                                             ('lang', 120 if q else 5000, ['fail=30'])]):
+        sout = os.path.join(wd, 'sess%d.ndjson' % gi)
+        sargs = ['gen', kind, 'seed=%d' % (vlib.seed() + 50 + gi), 'count=%d' % cnt, 'cfgs=basic', 'out=' + sout] + extra
+        p = vlib.harness(sargs, check=False, timeout=600 if q else 6000)
+        if p.returncode != 0:
+            os.environ.setdefault('VERIF_CHILD_SECS', '25' if q else '90')
+            vlib.harness(sargs + ['isolate=1'], timeout=7200)
+        files = vlib.shard_lines(sout, 1 if q else 8, wd, 'sess%d' % gi)
+        mism, ends, st = cek.validate(files, wd, workers_per_tlc=6, parallel=2)
+        states += st['generated']
+        S = {}
+        for fp in files:
+            S.update({(fp, k): v for k, v in cek.load_sessions(fp).items()})
+        sess_runs += sum(len(v['runs']) for v in S.values())
+        seen = set()
+        for mm in mism:
+            if mm['kind'] == 'abort' or (mm['kind'] == 'conformance' and mm['what'] in ('panic', 'timeout', 'abort', 'stacklimit', 'error cannot be rendered')):
+                sess = S[(mm['file'], mm['id'])]
+                key = (mm['id'], mm['form'])
+                if key in seen:
+                    continue
+                seen.add(key)
+                verdict.violation(['C06/session/%s' % mm['what'], 'form:' + cek.form_text(sess, mm['form'])], cek.describe(sess, mm), cek.replay_obj(sess, mm))
     # text entry points
     ntext = 4000 if q else 300000
     tout = os.path.join(wd, 'texts.ndjson')
@@ -168,7 +198,7 @@ def c06(tier):
                 'evaluation; distinct_nontrivial = number of distinct calls executed' % ('every 3rd' if q else 'completely', ntext),
         'samples': samples or [{'call': '(car zp1)'}], 'states': states, 'transitions': states,
         'traces_validated_against_impl': ncalls + ntext, 'procedures': nprocs, 'palette': 32,
-        'outcome_classes_observed': by_class, 'outcomes_more_lenient_than_r7rs_prescribes(not_violations)': lenient, 'allowed_sets_required': by_allow, 'tiers': tiers, 'texts': ntext,
+        'outcome_classes_observed': by_class, 'outcomes_more_lenient_than_r7rs_prescribes(not_violations)': lenient, 'allowed_sets_required': by_allow, 'tiers': tiers, 'texts': ntext, 'session_runs_through_the_evaluator': sess_runs,
     }, time.time() - t0, len(verdict.new), [
         'TLC/SANY/Json trusted', 'the signature table of Builtins.tla is my reading of R7RS section 6; procedures outside R7RS get the default signature',
         'a call that runs longer than 3 million VM instructions, or a process that makes no progress for 25 s, counts as not terminating',
